@@ -289,6 +289,9 @@ pub enum PathVerdict {
     NotOptimal(u64, u64),
     /// explained only when edges are evaluated at distance + 1
     EdgeDistance,
+    /// distance-dependent conditions: (cheapest usable simple path, cheapest simple path explaining the observed
+    /// result or `None` when no usable simple path explains it, e.g. an empty result although a usable path exists)
+    DistanceDependent(u64, Option<u64>),
 }
 
 pub const DYNAMIC_MAX_NODES: usize = 8;
@@ -484,6 +487,90 @@ impl Dyn<'_, '_> {
     }
 }
 
+impl Dyn<'_, '_> {
+    /// exhaustive variant: minimum cost over usable simple paths n -> to; when `matching` the path must also
+    /// explain `observed` from position `k` on. `cost` = cost so far. Result in `best`.
+    fn go_min(&mut self, n: i64, d: u64, k: usize, cost: u64, matching: bool, best: &mut Option<u64>) {
+        if self.budget == 0 {
+            self.exhausted = true;
+            return;
+        }
+        self.budget -= 1;
+        if best.is_some_and(|b| cost >= b) {
+            return;
+        }
+        let outs = self.ctx.g.nodes[&n].out.clone();
+        for e in outs {
+            let (ek, ep) = eval_conds(self.ctx, self.conds, e, d + 1);
+            if ek == Kind::Stop {
+                continue;
+            }
+            let k1 = if matching {
+                match step(self.observed, ep, e, k) {
+                    Some(k1) => k1,
+                    None => continue,
+                }
+            } else {
+                k
+            };
+            let t = self.ctx.g.edges[&e].1;
+            if self.on_path.contains(&t) {
+                continue;
+            }
+            let (tk, tp) = eval_conds(self.ctx, self.conds, t, d + 2);
+            if tk == Kind::Stop {
+                continue;
+            }
+            let k2 = if matching {
+                match step(self.observed, tp, t, k1) {
+                    Some(k2) => k2,
+                    None => continue,
+                }
+            } else {
+                k1
+            };
+            let c = cost + if ep { 1 } else { 2 } + if tp { 1 } else { 2 };
+            if t == self.to {
+                if (!matching || k2 == self.observed.len()) && best.is_none_or(|b| c < b) {
+                    *best = Some(c);
+                }
+                continue;
+            }
+            self.on_path.insert(t);
+            self.go_min(t, d + 2, k2, c, matching, best);
+            self.on_path.remove(&t);
+        }
+    }
+}
+
+/// (cheapest usable simple path, cheapest one explaining `observed`); `None` = budget exhausted
+fn dynamic_optimum(ctx: &Ctx, from: i64, to: i64, conds: &[Cond], observed: &[i64]) -> Option<(Option<u64>, Option<u64>)> {
+    let origin_pass = eval_conds(ctx, conds, from, 0).1;
+    let mut d = Dyn {
+        ctx,
+        conds,
+        observed,
+        to,
+        edge_bump: 0,
+        on_path: HashSet::from([from]),
+        budget: 2_000_000,
+        exhausted: false,
+    };
+    let mut best_any = None;
+    d.go_min(from, 0, 0, 0, false, &mut best_any);
+    if d.exhausted {
+        return None;
+    }
+    let mut best_obs = None;
+    if let Some(k0) = step(observed, origin_pass, from, 0) {
+        d.go_min(from, 0, k0, 0, true, &mut best_obs);
+        if d.exhausted {
+            return None;
+        }
+    }
+    Some((best_any, best_obs))
+}
+
 fn explained_dynamic(
     ctx: &Ctx,
     from: i64,
@@ -525,11 +612,23 @@ pub fn check_path(ctx: &Ctx, from: i64, to: i64, conds: &[Cond], observed: &[i64
     if !has_dist(conds) {
         return check_static(ctx, from, to, conds, observed);
     }
-    if observed.is_empty() || g.nodes.len() > DYNAMIC_MAX_NODES || g.edges.len() > DYNAMIC_MAX_EDGES {
+    if g.nodes.len() > DYNAMIC_MAX_NODES || g.edges.len() > DYNAMIC_MAX_EDGES {
         return PathVerdict::Skipped;
     }
+    if observed.is_empty() {
+        // empty is right iff no usable simple path exists or some cheapest one has no passing element
+        return match dynamic_optimum(ctx, from, to, conds, observed) {
+            None => PathVerdict::Skipped,
+            Some((None, _)) => PathVerdict::Ok,
+            Some((Some(c), Some(o))) if o <= c => PathVerdict::Ok,
+            Some((Some(c), o)) => PathVerdict::DistanceDependent(c, o),
+        };
+    }
     match explained_dynamic(ctx, from, to, conds, observed, 0) {
-        Some(true) => PathVerdict::Ok,
+        Some(true) => match dynamic_optimum(ctx, from, to, conds, observed) {
+            Some((Some(c), Some(o))) if o > c => PathVerdict::DistanceDependent(c, Some(o)),
+            _ => PathVerdict::Ok,
+        },
         None => PathVerdict::Skipped,
         Some(false) => match explained_dynamic(ctx, from, to, conds, observed, 1) {
             Some(true) => PathVerdict::EdgeDistance,
